@@ -14,11 +14,11 @@ use crate::json::J;
 use crate::model::*;
 use crate::rng::Rng;
 
-pub const RULE: &str = "case = one in-contract operation sequence over the safe public API, run under a memory checker: encode (exact-capacity byte inputs, lengths around multiples of 16/32), stripe / stripe_into (every arm; L >= 993 with EVERY residue mod 32 for the AVX2 transpose path; reuse of larger and smaller buffers), configure / configure_wrap (wrap exactly M-1, wrap beyond the 32 spare rows -> reallocation, capacity == rows after clone), f32 and u8 scoring on every arm incl. forced dispatch arms (full scans, last-row-only and random row sub-ranges, 32 and 16 columns, fresh / cloned / exact-capacity sequences and matrices), reading full and sub-range results through iter / rev / nth / unstripe / Vec::from (also after shrinking the buffer by hand), max / argmax / threshold, scanner next / max, sampler steps, sample(), DenseMatrix histories, to_discrete, score distributions and TFM-PVALUE. All inputs are allocated with exact capacity (clone / with_capacity) so that a red zone follows the last element. Verdict = reports of the checker (ASan / memcheck / Miri), panics of the dev-profile alignment assertions, or a shard dying on a signal. Non-trivial = case that executed at least one unsafe kernel; distinct = distinct (op family, alphabet, L, M, arm).";
+pub const RULE: &str = "case = one in-contract operation sequence over the safe public API, run under a memory checker: encode (exact-capacity byte inputs, lengths around multiples of 16/32), stripe / stripe_into (every arm; L >= 993 with EVERY residue mod 32 for the AVX2 transpose path; reuse of larger and smaller buffers), configure / configure_wrap (wrap exactly M-1, wrap beyond the 32 spare rows -> reallocation, capacity == rows after clone), f32 and u8 scoring on every arm incl. forced dispatch arms (full scans, last-row-only and random row sub-ranges, 32 and 16 columns, fresh / cloned / exact-capacity sequences and matrices), score_position on exact-capacity clones in every look-ahead state, reading full and sub-range results through iter / rev / nth / unstripe / Vec::from (also after shrinking the buffer by hand), max / argmax / threshold, scanner next / max, sampler steps, sample(), DenseMatrix histories, to_discrete, score distributions and TFM-PVALUE. All inputs are allocated with exact capacity (clone / with_capacity) so that a red zone follows the last element. Verdict = reports of the checker (ASan / memcheck / Miri), panics of the dev-profile alignment assertions, or a shard dying on a signal. Non-trivial = case that executed at least one unsafe kernel; distinct = distinct (op family, alphabet, L, M, arm).";
 
 pub const REQUIRED: &[&str] = &[
     "family.stripe_score", "family.striped_histories", "family.encode", "family.max_threshold", "family.scanner",
-    "family.sampler", "family.dense", "family.misc", "scores.accessors",
+    "family.sampler", "family.dense", "family.misc", "scores.accessors", "score_position.lookahead_states",
 ];
 
 #[derive(Clone, Copy, PartialEq)]
@@ -99,6 +99,48 @@ fn stripe_score<A: Alphabet>(case: u64, rng: &mut Rng, rep: &mut Report, alpha: 
                 continue;
             }
         };
+        // score_position indexes the sequence and needs no look-ahead rows: call it on exact-capacity
+        // clones in every look-ahead state (none, fewer rows than this motif needs, enough), at the
+        // positions whose window runs past the end of a column
+        if !exact.is_empty() {
+            for state in 0..3 {
+                let mut sq = st0.clone();
+                match state {
+                    0 => {}
+                    1 if m >= 3 => sq.configure_wrap(rng.range(1, m - 2)),
+                    _ => sq.configure_wrap(m.saturating_sub(1)),
+                }
+                let sq = sq.clone();
+                let rws = sq.matrix().rows() - sq.wrap();
+                let mut positions: Vec<usize> = (0..6).map(|_| rng.below(exact.len())).collect();
+                for col in [0usize, 1, 15, 30, 31] {
+                    for back in 1..=m.min(rws.max(1)).min(3) {
+                        let cand = (col + 1) * rws;
+                        if cand >= back && cand - back < exact.len() {
+                            positions.push(cand - back);
+                        }
+                    }
+                }
+                positions.push(exact.len() - 1);
+                for i in positions {
+                    match guard(|| pssm.score_position(&sq, i)) {
+                        Err(p) => {
+                            rep.violate(&format!("c06.panic:{}", panic_site(&p)), case, format!("panic in score_position({}) (look-ahead rows {}): {}", i, sq.wrap(), p), wit("score_position"));
+                            break;
+                        }
+                        Ok(got) => {
+                            let (ex, abs) = exact[i];
+                            let ok = if ex == f64::NEG_INFINITY { got == f32::NEG_INFINITY } else { ((got as f64) - ex).abs() <= tol(m, abs) };
+                            if !ok {
+                                rep.violate("c06.value", case, format!("score_position({}) = {} expected {} (look-ahead rows {}, width {})", i, got, ex, sq.wrap(), m), wit("score_position"));
+                                break;
+                            }
+                        }
+                    }
+                }
+                rep.cover("score_position.lookahead_states");
+            }
+        }
         // three storage situations for the same logical sequence
         let mut fresh = st0.clone(); // clone: capacity == rows, configure has to reallocate
         fresh.configure(&pssm);
